@@ -141,6 +141,15 @@ def audit(prop_id: str):
     return len(thms), len(thms) - len([f for f in failures if not f.startswith("forbidden")]), axioms, failures
 
 
+def leanchecker(prop_id: str):
+    """thorough tier: re-check the compiled property modules with Lean's independent checker"""
+    entry = json.load(open(os.path.join(LEAN, "theorems", prop_id + ".json")))
+    t0 = time.time()
+    p = subprocess.run(["lake", "env", "leanchecker", *entry["modules"]], cwd=LEAN, capture_output=True, text=True)
+    return {"modules": entry["modules"], "exit": p.returncode, "wall_s": round(time.time() - t0, 1),
+            "output_tail": (p.stdout + p.stderr)[-500:]}
+
+
 def run_driver(lines, timeout=600):
     """pipe operation lines through the compiled Lean model driver"""
     data = "\n".join(lines) + "\n"
